@@ -241,6 +241,12 @@ def _edit_one(job):
             elif sorted(l for l in got[1].splitlines() if l.strip()) != exp:
                 out["bad"].append(("list-items", "cli", "--list-items with edits %s reports %s, the edited file holds %s" % (
                     cli_args(ops), sorted(got[1].splitlines()), exp), ws_used))
+            got = query_cli(base, cli_args(ops), d, ["--list-item-labels"])
+            out["n"] += 1
+            explab = sorted(e.split("=", 1)[0] if not e.startswith("Potential-Form:") else e[:e.index(")") + 1] for e in exp)
+            if got[0] != "ok" or sorted(l for l in got[1].splitlines() if l.strip()) != explab:
+                out["bad"].append(("list-items", "cli", "--list-item-labels with edits %s reports %s, the edited file holds %s" % (
+                    cli_args(ops), sorted(got[1].splitlines()) if got[0] == "ok" else got, explab), ws_used))
             for s in hand["d"]:
                 for it in s["items"][:1]:
                     q = "%s:%s" % (SECTION[s["s"]], key_text(s["s"], it["k"], 0))
@@ -255,6 +261,93 @@ def _edit_one(job):
     finally:
         shutil.rmtree(d, ignore_errors=True)
     return out
+
+
+NOTES = Theme("notes", {k: "Notes%d" % k for k in range(1, 6)},
+              {sx: {k: ("key%d" % k, "key %d" % k) for k in range(1, 6)} for sx in range(1, 6)},
+              {(sx, k): ["value one", "2.5", "third value", ""] for sx in range(1, 6) for k in range(1, 6)},
+              preamble="[Tabulation]\ntarget : LAMMPS\nnr : 5\n\n[Pair]\nA-B : as.zero\n",
+              preamble_items=["Tabulation:target=LAMMPS", "Tabulation:nr=5", "Pair:A-B=as.zero"])
+
+
+def c14_traces(run, tier, seed):
+    """(T) larger documents and longer option sequences than TLC enumerates; TLC (IniDocTrace) is the judge"""
+    global TH
+    from atsim.potentials.config._config_parser import ConfigOverrideException, ConfigOverrideDuplicateException
+    from atsim.potentials.config._common import ConfigParserDuplicateEntryException
+    rnd = random.Random(seed * 13 + 5)
+    TH = NOTES
+    traces = []
+    d = tempfile.mkdtemp(prefix="verif-ini-")
+    try:
+        for t in range(60 if tier == "quick" else 500):
+            secs = rnd.sample(range(1, 5), rnd.randint(2, 4))
+            f = [dict(s=sx, items=[dict(k=k, ws=rnd.choice([0, 0, 1]), v=rnd.randint(1, 3)) for k in rnd.sample(range(1, 6), rnd.randint(1, 4))]) for sx in secs]
+            ops = []
+            for _ in range(rnd.randint(3, 6)):
+                kind = rnd.choice(["ovr", "ovr", "rem", "add", "add"])
+                ops.append(dict(kind=kind, s=rnd.randint(1, 5), k=rnd.randint(1, 5), ws=rnd.choice([0, 1]), v=0 if kind == "rem" else rnd.randint(1, 4)))
+            # two identical --remove-item options count as one (spec: excluded)
+            seen, ops2 = set(), []
+            for o in ops:
+                key = (o["kind"], o["s"], o["k"], o["ws"])
+                if o["kind"] == "rem" and key in seen:
+                    continue
+                seen.add(key)
+                ops2.append(o)
+            ops = ops2
+            text = render_file(f)
+            ov = [ConfigParserOverrideTuple(SECTION[o["s"]], key_text(o["s"], o["k"], o["ws"]), val_text(o["s"], o["k"], o["v"])) for o in ops if o["kind"] == "ovr"]
+            ov += [ConfigParserOverrideTuple(SECTION[o["s"]], key_text(o["s"], o["k"], o["ws"]), None) for o in ops if o["kind"] == "rem"]
+            ad = [ConfigParserOverrideTuple(SECTION[o["s"]], key_text(o["s"], o["k"], o["ws"]), val_text(o["s"], o["k"], o["v"])) for o in ops if o["kind"] == "add"]
+            # the API route applies the list as given; the spec's merge rule is the CLI's: observe through the CLI listing
+            got = query_cli(text, cli_args(ops), d, ["--list-items"])
+            run.evaluations += 1
+            if got[0] == "ok":
+                docobs = {}
+                order = []
+                ok = True
+                for line in got[1].splitlines():
+                    if not line.strip() or line in TH.preamble_items:
+                        continue
+                    lab, val = line.split("=", 1)
+                    sname, key = lab.split(":", 1)
+                    sx = [k for k, v in TH.sections.items() if v == sname]
+                    kx = [k for k in range(1, 6) if TH.keys[1][k][0] == key]
+                    vx = [i + 1 for i, v in enumerate(["value one", "2.5", "third value", ""]) if v == val]
+                    if not sx or not kx or not vx:
+                        ok = False
+                        break
+                    if sx[0] not in docobs:
+                        docobs[sx[0]] = []
+                        order.append(sx[0])
+                    docobs[sx[0]].append(dict(k=kx[0], v=vx[0]))
+                obs = dict(err="" if ok else "unparsable", doc=[dict(s=sx, items=docobs[sx]) for sx in order])
+            elif got[0] == "config":
+                msg = got[1]
+                obs = dict(err="override-missing" if "not found in configuration file" in msg else "add-duplicate" if "already exists" in msg else "other:" + msg[:60], doc=[])
+            else:
+                obs = dict(err="internal:" + got[1][:60], doc=[])
+            traces.append(dict(file=f, ops=ops, obs=obs, canary=False))
+    finally:
+        shutil.rmtree(d, ignore_errors=True)
+    can = json.loads(json.dumps(traces[0]))
+    can["canary"] = True
+    can["obs"] = dict(err="", doc=[dict(s=5, items=[dict(k=5, v=4)])])
+    traces.append(can)
+    res, rep = tlc.batch_validate("IniDocTrace", "IniDocTrace.cfg", traces)
+    run.add_tlc("IniDocTrace(%d traces)" % len(traces), res, exhaustive=False)
+    for t, (reached, total, complete) in zip(traces, rep):
+        if t["canary"]:
+            if complete == 1:
+                run.machinery("trace validation is vacuous: the corrupted canary trace was accepted")
+            continue
+        run.traces += 1
+        run.distinct("trace:" + json.dumps([t["file"], t["ops"]]))
+        if complete != 1:
+            run.violation(dict(engine="inidoc", clause="trace-rejected", route="cli", whitespace_key=any(o["ws"] for o in t["ops"]), theme="notes"),
+                          "[trace-rejected] options %s on\n%s observed %s: not the outcome of the specification" % (cli_args(t["ops"]), render_file(t["file"]), t["obs"]), dict(trace=t))
+    run.sample(dict(trace_options=cli_args(traces[0]["ops"]), observed=traces[0]["obs"], validated_by="TLC IniDocTrace"))
 
 
 def main_c14(tier, seed):
@@ -311,6 +404,7 @@ def main_c14(tier, seed):
                 for clause, route, msg, ws_used in r["bad"][:1]:
                     run.violation(dict(engine="inidoc", clause=clause, route=route, whitespace_key=ws_used, theme=TH.name), "[%s] %s/%s: %s" % (clause, TH.name, route, msg),
                                   dict(case=case, base=render_file(case["file"]), args=cli_args(case["ops"])))
+            c14_traces(run, tier, seed)
             run.rule = "cases = base file x option sequence (TLC) x {CLI, ConfigParser API} + listing queries; non-trivial = at least one option; distinct by (file, options)"
     except tlc.TLCError as e:
         run.machinery(str(e))
